@@ -8,7 +8,12 @@ RULE = {"C02": "designed liquid scenarios (trees + chords with derived loss coef
 
 
 def main():
-    return ref.run_check("C02", RULE["C02"])
+    from . import core, gas
+    V = core.Verdicts("C02")
+    extra = gas.gas_part(V, "C02", core.tier(), core.seed(), [{}])      # designed gas family (real-gas law, K = 1)
+    rc1 = V.finish()
+    rc2 = ref.run_check("C02", RULE["C02"], extra_cov=extra, prior_violations=len(V.violations))
+    return 1 if (rc1 or rc2) else 0
 
 
 def replay(path):
